@@ -3,7 +3,7 @@
 # working tree).   usage: tools/mutant.sh <patch.diff|pinned> <Cxx> [<Cxx>…]   env: TIER=quick|thorough
 # Prints one line per check:  <Cxx> DETECTED|MISSED|ERROR  (and the VIOLATION lines).
 set -u
-patch=$1; shift
+patch=$1; shift; [ "$patch" != pinned ] && patch=$(realpath "$patch")
 wt=/var/tmp/gcverif-mut-$$
 rev=HEAD
 [ "$patch" = pinned ] && rev=pinned-base
